@@ -289,6 +289,35 @@ ArgOf(r, req) ==
       [] r.arg = "str"      -> [k |-> "str", s |-> req.mname]
       [] OTHER              -> [k |-> "none"]
 
+(***************************************************************************)
+(* The add parameters that shape the imported DAG, as the caller states    *)
+(* them, and what the RPC side can see of them: the blocks put and the     *)
+(* pinned root.  (The adder runs inside the API process: api.AddParams is   *)
+(* never an RPC argument, its effect on the blocks is.)                     *)
+(*   chunker     -> number of leaves of the 3600-byte test file             *)
+(*   raw-leaves  -> leaves are raw-codec blocks                             *)
+(*   cid-version -> CID version of the dag-pb nodes                         *)
+(* Caller-visible defaulting rule: raw leaves are on exactly when the       *)
+(* caller said so, or - only in the hand-written HTTP form, where "not      *)
+(* specified" exists - when the caller left them unspecified and asked for  *)
+(* cid-version > 0.  Through the client library the caller always specifies *)
+(* them (api.AddParams.RawLeaves is a bool): what it passed is what counts. *)
+(***************************************************************************)
+Chunks(req)  == IF req.a["chunker"] = "size1024" THEN 4 ELSE 1
+WantsRaw(req) ==
+    IF req.a["rawleaves"] \in {"true", "false"} THEN req.a["rawleaves"] = "true"
+    ELSE req.via # "client" /\ req.a["cidv"] = "one"
+\* as the adder builds it: the leaves, the file node above them (none for a single raw leaf; the trickle layout
+\* keeps one even above a single leaf) and the directory node the multipart upload is wrapped in (always put;
+\* wrap-with-directory only decides whether it becomes the root)
+BlockShape(req) ==
+    LET c   == Chunks(req)
+        raw == WantsRaw(req)
+        tr  == IF req.a["layout"] = "trickle" /\ c = 1 THEN 1 ELSE 0
+        pb  == (IF c = 1 THEN (IF raw THEN 0 ELSE 1) ELSE (IF raw THEN 1 ELSE c + 1)) + tr + 1    \* dag-pb nodes
+        nr  == IF raw THEN c ELSE 0                                                               \* raw blocks
+    IN [k |-> "block", n |-> pb + nr, raw |-> nr, pbv |-> IF req.a["cidv"] = "one" THEN 1 ELSE 0]
+
 \* how far the add pipeline gets for a scripted answer
 AddReach(ans) == CASE ans = "err_alloc" -> 1 [] ans = "err_put" -> 2 [] OTHER -> 3
 AddFailed(req, r) == Deferred(req, r) \/ req.ans # "ok"
@@ -301,7 +330,8 @@ OpsOf(r, req) ==
     IF r.name = "Add" THEN
         IF Deferred(req, r) THEN <<>> ELSE
         SubSeq(<<[svc |-> "Cluster", m |-> "BlockAllocate", arg |-> AddArg(req, "undef")],
-                 [svc |-> "IPFSConnector", m |-> "BlockPut", arg |-> [k |-> "block"]],
+                 [svc |-> "IPFSConnector", m |-> "BlockPut",
+                  arg |-> IF AddReach(req.ans) = 3 THEN BlockShape(req) ELSE [k |-> "block"]],
                  [svc |-> "Cluster", m |-> "Pin", arg |-> AddArg(req, AddRoot(req))]>>, 1, AddReach(req.ans))
     ELSE
         <<[svc |-> r.svc, m |-> (IF "local" \in r.args /\ req.local = "true" THEN r.mloc ELSE r.m),
